@@ -28,12 +28,13 @@ LEVEL = "fault_enumeration"
 _IDX = re.compile(r"\[\d+\]")
 
 
-HEAVY = {
-    # the iterative decompositions and estimators the property is anchored in have by far the largest
-    # option spaces: they get four times as many workloads as the small functions
-    "parafac", "CP.fit_transform", "non_negative_parafac", "non_negative_parafac_hals", "constrained_parafac", "tucker",
-    "partial_tucker", "non_negative_tucker", "non_negative_tucker_hals", "parafac2", "randomised_parafac", "robust_pca",
-    "CP_PLSR", "CPRegressor", "TuckerRegressor", "svd_interface", "tensor_ring_als", "tensor_ring_als_sampled",
+WEIGHTS = {
+    # share of workloads per entry point (default 1).  The iterative decompositions and estimators the
+    # property is anchored in have by far the largest option spaces; cheap and option-rich ones get most.
+    "parafac": 10, "tucker": 8, "non_negative_parafac": 6, "partial_tucker": 6, "constrained_parafac": 6, "robust_pca": 6,
+    "CP_PLSR": 6, "svd_interface": 6, "CP.fit_transform": 4, "randomised_parafac": 4, "parafac2": 4, "non_negative_tucker": 4,
+    "CPRegressor": 4, "TuckerRegressor": 4, "tensor_ring_als": 4, "tensor_ring_als_sampled": 3, "non_negative_parafac_hals": 2,
+    "non_negative_tucker_hals": 2, "hals_nnls": 3, "fista": 3, "admm": 3, "cp_to_tensor": 3, "cp_mode_dot": 2, "tucker_mode_dot": 2,
 }  # fmt: skip
 
 
@@ -41,7 +42,7 @@ def entries():
     out = []
     for e in catalog.ENTRIES.values():
         if "c15" in e["groups"]:
-            out.extend([e] * (4 if e["name"] in HEAVY else 1))
+            out.extend([e] * WEIGHTS.get(e["name"], 1))
     return out
 
 
